@@ -7,6 +7,9 @@
 //             "MAP <key>=<value in hex>;..."                 typedef_map_, sorted by key
 //             "SD a,b"  "ED a,b"  "UD a,b"  "ID a,b"         keys of the definition tables, sorted (plain identifiers only)
 //             "R <name> <resolveTypedefChain(name) in hex, or - for the empty string>"   per query name
+//             "DC X>Y <0|1> <visited, sorted>"   per query of the form X>Y: ONE struct cycle check as parseStructDeclaration
+//                                                starts it - detectCircularReference(X, Y, visited = {}, path = [X]) on the
+//                                                final struct_definitions_ - its answer and the `visited` set it leaves
 //           then "END".  Every case runs in a forked child under a CPU limit: a child that is killed
 //           (endless loop in the table walk, stack overflow) yields "DEAD <signal>" followed by "END".
 // The private members are reached by the usual test trick (private -> public for this translation unit only).
@@ -89,6 +92,22 @@ static void one(const std::string &src, const std::vector<std::string> &queries)
     keys("ID", parser.interface_definitions_);
     std::fflush(stdout);
     for (const auto &q : queries) {
+        size_t gt = q.find('>');
+        if (gt != std::string::npos) {
+            std::string x = q.substr(0, gt), y = q.substr(gt + 1);
+            std::unordered_set<std::string> visited;
+            std::vector<std::string> path;
+            path.push_back(x);
+            bool ans = parser.detectCircularReference(x, y, visited, path);
+            std::vector<std::string> vs(visited.begin(), visited.end());
+            std::sort(vs.begin(), vs.end());
+            std::printf("DC %s %d ", q.c_str(), ans ? 1 : 0);
+            if (vs.empty()) std::printf("-");
+            for (size_t i = 0; i < vs.size(); i++) std::printf("%s%s", i ? "," : "", vs[i].c_str());
+            std::printf("\n");
+            std::fflush(stdout);
+            continue;
+        }
         std::string r = parser.resolveTypedefChain(q);
         std::printf("R %s %s\n", q.c_str(), hex(r).c_str());
         std::fflush(stdout);
